@@ -451,6 +451,8 @@ func init() {
 				Bound: fmt.Sprintf("all edge lists with <=%d edges x {greedy,dfs} x {ns,lp} x {sink,valign,packright,b&k x5} x {straight,polyline,ortho} x {fixed,per-node} x every factor 2^k, k in -3..6", dq)},
 			{Name: "G-end-factors", Space: spaceG(dq+1, dq+1, 0, nil), Eval: evalC17(grid, ends),
 				Bound: fmt.Sprintf("all edge lists with %d edges x the same grid x factors {2^-3, 2^6}", dq+1)},
+			{Name: "macro-3", Space: spaceMacro(3, false), Eval: evalC17(gridSpec{P1: []int{0}, P2: []int{0}, P4: []int{0, 4}, P5: []int{2, 3}, SZ: []int{2}}.list(), ends),
+				Bound: "every graph built by <=3 gadget insertions (shapes with up to 13 edges) x greedy x ns x {sink,bk} x {polyline,ortho} x per-node sizes x factors {2^-3, 2^6}"},
 			{Name: "seeds", Space: spaceSeeded(seedWitnesses, 1), Eval: evalC17(grid, ends),
 				Bound: "all states within 1 edit operation of the recorded witnesses x factors {2^-3, 2^6}"},
 			{Name: "parallel-chains", Space: spaceList(thetaFamilies(tierPick(tier, 5, 4), tier == "thorough")),
@@ -469,6 +471,8 @@ func init() {
 			{Name: "G4-d1", Space: spaceG(4, 4, 0, nil), Eval: evalC08(grid, 1),
 				Bound: "all edge lists with 4 edges x every renaming of 1 node into the pool + all-nodes renamings x the same grid"},
 		}
+		ps = append(ps, &Pass{Name: "macro-2-d1", Space: spaceMacro(2, false), Eval: evalC08(gridSpec{P1: []int{0}, P2: allP2, P4: []int{0, 3}, P5: []int{2}, SZ: []int{2}}.list(), 1),
+			Bound: "every graph built by <=2 gadget insertions (shapes with up to 9 edges) x every renaming of 1 node into the pool + all-nodes renamings x greedy x {ns,lp} x {sink,ns}"})
 		if tier == "thorough" {
 			ps = append(ps,
 				&Pass{Name: "G4-d2", Space: spaceG(4, 4, 0, nil), Eval: evalC08(gridSpec{P1: []int{0}, P2: allP2, P4: []int{0, 3, 4}, P5: []int{2}, SZ: []int{2}}.list(), 2),
